@@ -302,11 +302,16 @@ def _normalised_before_compare(fn: ast.AST, site: ast.AST) -> T.Optional[T.Tuple
             if _unwrap_path(top)[1]:
                 return True, top
             return use(top, depth + 1)
+        if isinstance(par, ast.IfExp) and e is not par.test:
+            return use(par, depth)            # one arm of a conditional expression: the value of the whole
+        if isinstance(par, (ast.ListComp, ast.SetComp, ast.GeneratorExp)) and par.elt is e:
+            return use(par, depth)            # the elements of a collection: compared by `x in <collection>`
         if isinstance(par, ast.Assign) and par.value is e and len(par.targets) == 1 and isinstance(par.targets[0], ast.Name):
             v = par.targets[0].id
             stores = [n for n in ast.walk(fn) if isinstance(n, ast.Name) and n.id == v and isinstance(n.ctx, ast.Store)]
-            loads = [n for n in ast.walk(fn) if isinstance(n, ast.Name) and n.id == v and isinstance(n.ctx, ast.Load)]
-            if len(stores) != 1 or not loads:
+            own = {id(n) for n in ast.walk(par)}
+            loads = [n for n in ast.walk(fn) if isinstance(n, ast.Name) and n.id == v and isinstance(n.ctx, ast.Load) and id(n) not in own]
+            if (len(stores) != 1 and not isinstance(e, (ast.ListComp, ast.SetComp, ast.GeneratorExp))) or not loads:
                 return None
             res = [use(l, depth + 1) for l in loads]
             if any(r is None for r in res):
